@@ -1,0 +1,11 @@
+//go:build verif
+
+package list
+
+// Hook for the verification harness (/verif, property C19): read-only snapshot
+// of the unexported list state.
+
+// VerifState returns the selected index, the scroll offset and the item count.
+func (m *List) VerifState() (index int, offset int, n int) {
+	return m.index, m.offset, len(m.items)
+}
